@@ -52,6 +52,9 @@ func (p sessProp) Key(inp interface{}) (string, bool) {
 	n := 0
 	for _, c := range in.Conns {
 		fmt.Fprintf(&b, "[%s%v", c.Cert, c.NoDial)
+		if c.AppSendAt > 0 {
+			fmt.Fprintf(&b, "@%d%s", c.AppSendAt, c.AppSendVia)
+		}
 		for _, g := range c.Groups {
 			for _, it := range g {
 				b.WriteString(it.T + it.Typ + it.Pl + it.Res + it.NS + it.Open + fmt.Sprint(it.TLS, it.Sess, it.SM, it.Err, it.KeepID, it.Jid == "") + ",")
@@ -89,8 +92,13 @@ func (p sessProp) Oracle(inp interface{}, obs Sx) (string, string) {
 		// ---- C03: order of requests
 		var word strings.Builder
 		sawAuth, sawBind, sawResume := false, false, false
-		for _, rq := range reqs {
+		for rj, rq := range reqs {
 			k, secure := rq.L[0].L[0].Z, rq.L[1].Z == 1
+			if isAppSendReq(rq) {
+				// ---- C03: the client's own requests only: nothing the application sends goes on the wire while the
+				// negotiation is in progress (the server held back answer number AppSendAt until Send/SendRaw had returned)
+				return fmt.Sprintf("conn %d: the application's <message/> (%s called while the server held back its answer number %d) reached the server during the negotiation, after %d request(s) of the client (inside TLS: %v), before the session was established", ci, map[bool]string{true: "SendRaw", false: "Send"}[c.AppSendVia == "raw"], c.AppSendAt, rj, secure), "app-send-during-negotiation"
+			}
 			word.WriteByte("OTARBSE?"[min64(k, 7)])
 			switch k {
 			case 2:
@@ -732,6 +740,8 @@ func genC03(r *rand.Rand, tier string) []interface{} {
 		in.Conns = []sessConn{{Groups: g}}
 		out = append(out, in)
 	}
+	// 8. an application send (Send / SendRaw from another goroutine) while a negotiation is in progress
+	out = append(out, genC03appSend(r, tier)...)
 	// 5. dial refused
 	in := randClient(r)
 	g, _ := goodConn(in, shape{tlsOffer: 1}, "", "", "x", "true")
@@ -740,6 +750,53 @@ func genC03(r *rand.Rand, tier string) []interface{} {
 	out = append(out, in)
 	// 7. the other transport: WebSocket, plain and over TLS (c03ws.go)
 	out = append(out, genC03ws(r, tier)...)
+	return out
+}
+
+// genC03appSend: at every step of a negotiation (the server holds back its k-th answer, k = 1 being its first stream
+// header, until the application's call has returned), on the first Connect of a fresh Client, on a reconnection after an
+// established session was cut (with and without traffic on it, i.e. with and without a receiver that noticed the
+// cut), on a resumption (confirmed / refused) and on the attempt after a failed one: another goroutine calls Send or
+// SendRaw. What the server receives on that connection must be the client's own requests only. Always, not sampled.
+func genC03appSend(r *rand.Rand, tier string) []interface{} {
+	var out []interface{}
+	rounds := 1
+	if tier == "thorough" {
+		rounds = 6
+	}
+	for round := 0; round < rounds; round++ {
+		for _, hist := range []string{"first", "reconnect", "resume", "after-failure"} {
+			for _, tlsOffer := range []int{0, 1} {
+				in0 := randClient(r)
+				in0.Insecure = tlsOffer == 0 || r.Intn(2) == 0
+				sh := shape{tlsOffer: tlsOffer, sess: r.Intn(3), smOffer: r.Intn(2) == 0}
+				var prefix []sessConn
+				held := ""
+				switch hist {
+				case "reconnect":
+					in0.SMEnable = false
+					g, _ := goodConn(in0, sh, "", "", "", "")
+					prefix = []sessConn{{Groups: g, Traffic: 2 * r.Intn(2)}}
+				case "resume":
+					in0.SMEnable, in0.SMResume = true, true
+					sh.smOffer = true
+					held = fmt.Sprintf("held-a%d", round)
+					prefix = []sessConn{firstConnWithSM(in0, r, held, 2*r.Intn(2))}
+				case "after-failure":
+					prefix = []sessConn{failedAttempt(in0, []string{"auth", "restart", "nofeatures"}[r.Intn(3)], "")}
+				}
+				g, labels := goodConn(in0, sh, held, []string{"resumed", "failed"}[r.Intn(2)], fmt.Sprintf("sm-a%d", round), "true")
+				for at := 1; at <= len(g); at++ {
+					for _, via := range []string{"send", "raw"} {
+						in := in0
+						in.Tag = "app-send:" + hist + ":" + labels[at-1]
+						in.Conns = append(append([]sessConn{}, prefix...), sessConn{Groups: g, AppSendAt: at, AppSendVia: via})
+						out = append(out, in)
+					}
+				}
+			}
+		}
+	}
 	return out
 }
 
@@ -931,7 +988,7 @@ func genC11long(r *rand.Rand, tier string) []interface{} {
 }
 
 func init() {
-	register(sessProp{id: "C03", gen: genC03, rule: "scripted TCP/TLS server against the real Client.connect: good scripts for random client configurations and feature shapes, then the per-step alphabet: every step (each stream header, each features element, proceed, auth reply, resume reply, bind reply, session reply, enable reply) x every reply kind (32 kinds: success variants, failure/error replies with and without echoed payload, unexpected elements of every other kind, malformed XML, stream close, connection drop) with all other steps successful, with and without resumable state; quick tier runs a seed-dependent third of the matrix, thorough all of it 12 times with fresh shapes; distinct = configuration + script item kinds; non-trivial = script of >= 3 items; the same over the WebSocket transport (ws:// and wss:// scripted websocket endpoints x Insecure x feature shapes incl. features that advertise STARTTLS: good scripts, deviations at every step, a failed attempt followed by a good one, resumption over wss; no STARTTLS and no stream restart before <auth/> there); patient-server scenarios (the server answers item by item and looks, before and between the items, whether the client has already written again; it records how many items it had sent when each request showed up, which must be at least what the model says the client has consumed by then, C03_waits_for_confirmation / C03_seen_is_read): good shapes, an unrelated stanza appended to one answer, a deviation in the middle"})
+	register(sessProp{id: "C03", gen: genC03, rule: "scripted TCP/TLS server against the real Client.connect: good scripts for random client configurations and feature shapes, then the per-step alphabet: every step (each stream header, each features element, proceed, auth reply, resume reply, bind reply, session reply, enable reply) x every reply kind (32 kinds: success variants, failure/error replies with and without echoed payload, unexpected elements of every other kind, malformed XML, stream close, connection drop) with all other steps successful, with and without resumable state; quick tier runs a seed-dependent third of the matrix, thorough all of it 12 times with fresh shapes; distinct = configuration + script item kinds; non-trivial = script of >= 3 items; the same over the WebSocket transport (ws:// and wss:// scripted websocket endpoints x Insecure x feature shapes incl. features that advertise STARTTLS: good scripts, deviations at every step, a failed attempt followed by a good one, resumption over wss; no STARTTLS and no stream restart before <auth/> there); patient-server scenarios (the server answers item by item and looks, before and between the items, whether the client has already written again; it records how many items it had sent when each request showed up, which must be at least what the model says the client has consumed by then, C03_waits_for_confirmation / C03_seen_is_read): good shapes, an unrelated stanza appended to one answer, a deviation in the middle; application sends during a negotiation (always, not sampled): history {first Connect of a fresh Client, reconnection after an established session was cut, resumption confirmed / refused, attempt after a failed one} x STARTTLS {absent, offered} x every step k of the good script (the scripted server holds back its k-th answer, k = 1 its first stream header, until the call has returned) x {Send, SendRaw} of a <message/> from another goroutine: the server must receive the client's own requests only on that connection (the stanza is reported among the requests unless it arrives after the last request of a negotiation that succeeded)"})
 	register(c04Prop{s: sessProp{id: "C04", gen: genC04, rule: "Insecure x TLS config {RootCAs, InsecureSkipVerify, nil} x ServerName {unset, other} x STARTTLS {absent, offered, required} x reply {proceed, failure, unexpected, malformed, close, drop} x certificate {valid, wrong host, untrusted issuer, expired} x history {first connection, reconnect after a TLS session, reconnect after a clear session} against a real TLS-capable server; the server records whether each client element arrived inside TLS; quick tier a seed-dependent third, thorough the full product 6 times"}})
 	register(c11Prop{s: sessProp{id: "C11", gen: genC11, rule: "histories of 3 connections: SM enabled with id, then two reconnects whose reply to <resume/> ranges over {resumed same id, other id, failed, failed+stanza condition, every unexpected kind, malformed, close, drop} (all pairs), SM advertised or not on the second connection, random stanza traffic between connections (counted by the real receive loop); quick tier a third of the pairs, thorough all pairs 8 times; PLUS histories of 4-8 connections: a random walk over {resumption confirmed, refused (new session, new id), answered with another id / an unexpected element / malformed XML / a closed or cut stream (state gone), failed attempts that ask nothing: refused dial, failed TLS handshake, rejected password, cut at the stream restart}; the oracle derives from the SCRIPT which id may still be presented at each point"}})
 }
